@@ -589,7 +589,7 @@ static int ec_write(char *loc, char *cmd, char *arg, char *txt)
 	path = arg[0] ? ex_pathexpand(arg, 1) : ex_path();
 	if (cmd[0] == 'x' && !lbuf_modified(xb))
 		return 0;
-	if (ex_region(loc, &beg, &end) || path == NULL)
+	if (ex_region(loc, &beg, &end) || (!end && lbuf_len(xb)) || path == NULL)
 		return 1;
 	if (!loc[0]) {
 		beg = 0;
@@ -807,7 +807,7 @@ static int ec_substitute(char *loc, char *cmd, char *arg, char *txt)
 	char *pat = NULL, *rep = NULL;
 	char *s = arg;
 	int i;
-	if (ex_region(loc, &beg, &end))
+	if (ex_region(loc, &beg, &end) || (!end && lbuf_len(xb)))
 		return 1;
 	pat = re_read(&s);
 	if (pat && pat[0])
@@ -956,7 +956,7 @@ static int ec_glob(char *loc, char *cmd, char *arg, char *txt)
 	int i;
 	if (!loc[0] && !xgdep)
 		strcpy(loc, "%");
-	if (ex_region(loc, &beg, &end))
+	if (ex_region(loc, &beg, &end) || (!end && lbuf_len(xb)))
 		return 1;
 	not = strchr(cmd, '!') || cmd[0] == 'v';
 	pat = re_read(&s);
